@@ -394,3 +394,43 @@ REGISTRY.append(NubWiring())
 for _c in REGISTRY:
     if _c.__class__.__module__ == __name__ and "C10" not in _c.props and ":_Slice" in _c.name:
         _c.props = tuple(_c.props) + ("C10",)
+
+
+class PairwiseIndices(Contract):
+    """C13: `_Slice._pairwise_indices(p_vals, t_stats, alpha, only_larger)` -- the index set of
+    row i contains position j exactly when p[i, j] is below alpha (a NaN p-value is never
+    below) and, in only-larger mode, the t statistic is negative (the compared column's
+    proportion is the smaller one); positions are reported in increasing order, each once.
+    Concrete shapes, symbolic contents (np.where index form: one path per truth assignment)."""
+
+    name = MOD + ":_Slice._pairwise_indices"
+    props = ("C13",)
+    tier = "B"
+
+    def configs(self):
+        return [{"only_larger": False}, {"only_larger": True}]
+
+    def size_space(self, cfg):
+        return {"N": [1, 2], "M": [1, 2, 3]}
+
+    def run(self, B, cfg):
+        N, M = B.size("N", lo=1), B.size("M", lo=1)
+        p = B.tensor("p_vals", (N, M), nonneg=True, maybe_nan=True)
+        t = B.tensor("t_stats", (N, M), maybe_nan=True)
+        alpha = B.real("alpha", nonneg=True)
+        only_larger = cfg["only_larger"]
+        fn = B.cls(MOD + ":_Slice")._pairwise_indices
+        got = fn(p, t, alpha, only_larger)
+        B.check("one-set-per-row", len(got) == int(N))
+        for i in range(int(N)):
+            row = tuple(int(x) for x in got[i])
+            B.check("row%d-increasing-distinct" % i, all(a < b for a, b in zip(row, row[1:])))
+            B.check("row%d-in-range" % i, all(0 <= a < int(M) for a in row))
+            for j in range(int(M)):
+                exp = B.rd(p, i, j) < alpha
+                if only_larger:
+                    exp = B.band(exp, B.rd(t, i, j) < 0)
+                B.check("row%d-col%d-membership" % (i, j), exp if j in row else B.bnot(exp))
+
+
+REGISTRY.append(PairwiseIndices())
